@@ -73,7 +73,7 @@ func RunTcbLevelsCase(cs map[string]any, id int, seed int64) Result {
 				if l["rel"] == "le" {
 					v -= rng.Intn(3)
 				} else {
-					v += 1 + rng.Intn(3)
+					v = above(v, rng)
 				}
 				out = append(out, gen.ModLevel{Isvsvn: v, Status: l["st"].(string)})
 			}
@@ -111,7 +111,7 @@ func RunTcbLevelsCase(cs map[string]any, id int, seed int64) Result {
 			case "lt":
 				v = isv - 1 - rng.Intn(3)
 			case "gt":
-				v = isv + 1 + rng.Intn(300)
+				v = above(isv, rng)
 			}
 			spec.Levels = append(spec.Levels, gen.ModLevel{Isvsvn: v, Status: l["st"].(string)})
 		}
@@ -164,4 +164,18 @@ func init() {
 		}
 		return summarise("tcblevels", rs, n), nil
 	}
+}
+
+// above gives a level value greater than v: just above it, or far above it in ways that narrow arithmetic would fold back
+// (equal to v modulo 2^16; beyond 2^31, where a signed 32-bit difference turns negative; the largest 32-bit value).
+func above(v int, rng *rand.Rand) int {
+	switch rng.Intn(5) {
+	case 0:
+		return v + 1<<16
+	case 1:
+		return v + 1<<31 + 1 + rng.Intn(1000)
+	case 2:
+		return 1<<32 - 1
+	}
+	return v + 1 + rng.Intn(300)
 }
